@@ -3,6 +3,7 @@
 -/
 import MTVerif.Driver.Sexp
 import MTVerif.Model.Infer
+import MTVerif.Model.Encode
 namespace MT
 open Sexp
 
@@ -78,5 +79,44 @@ partial def sexpOfField : String × Ty → Sexp
 end
 
 def sexpOfBool (b : Bool) : Sexp := .atom (if b then "true" else "false")
+
+mutual
+partial def jsonOf : Sexp → Except String Json
+  | .atom "null" => .ok .null
+  | .atom "true" => .ok (.bool true)
+  | .atom "false" => .ok (.bool false)
+  | .list [.atom "s", s] => do .ok (.str (← strOf s))
+  | .list (.atom "arr" :: xs) => do .ok (.arr (← xs.mapM jsonOf))
+  | .list (.atom "obj" :: kvs) => do .ok (.obj (← kvs.mapM jsonKV))
+  | s => .error s!"bad json: {s}"
+partial def jsonKV : Sexp → Except String (String × Json)
+  | .list [k, v] => do .ok (← strOf k, ← jsonOf v)
+  | s => .error s!"bad json member: {s}"
+end
+
+mutual
+partial def sexpOfJson : Json → Sexp
+  | .null => .atom "null"
+  | .bool b => sexpOfBool b
+  | .str s => .list [.atom "s", .str s]
+  | .arr xs => .list (.atom "arr" :: xs.map sexpOfJson)
+  | .obj kvs => .list (.atom "obj" :: kvs.map (fun kv => .list [.str kv.1, sexpOfJson kv.2]))
+end
+
+def sexpOfErr : PyErr → Sexp
+  | .nameLookup => .atom "NameLookupError"
+  | .invalidType => .atom "InvalidTypeError"
+  | .malformed => .atom "Malformed"
+
+partial def objOf : Sexp → Except String Obj
+  | .atom "other" => .ok .other
+  | .list [.atom "cls", c] => do .ok (.cls (← natOf c))
+  | .list [.atom "func", f] => do .ok (.func (← natOf f))
+  | .list [.atom "method", f] => do .ok (.boundMethod (← natOf f))
+  | .list [.atom "prop", g, s, d] => do
+      let fget ← (match g with | .atom "none" => .ok none | g => (natOf g).map some)
+      .ok (.prop fget (s == .atom "true") (d == .atom "true"))
+  | .list [.atom "wrapped", f, inner] => do .ok (.wrapped (← natOf f) (← objOf inner))
+  | s => .error s!"bad obj: {s}"
 
 end MT
